@@ -223,3 +223,45 @@ Fixpoint ct_steps_sat (P : ct_state -> ct_event -> ct_state -> Prop) (hm : bool)
   | [] => True
   | ev :: evs' => P st ev (fst (ctc_step hm mx st ev)) /\ ct_steps_sat P hm mx (fst (ctc_step hm mx st ev)) evs'
   end.
+
+(* ------------------------------------------------------------------ round 6: the COMMANDS the redis tier sends *)
+(* setLoop builds  SET key value [NX] PX ttlMs  for every queued op; Get sends GET key.  [px = None] is a SET without
+   expiry (never built by the code as it is; it is what the refuted variant sends). *)
+Inductive redis_cmd := RSet (k : key) (nx : bool) (px : option Z) | RGet (k : key).
+
+(* AsyncStore + setLoop at wall time [now] for an entry expiring at [expire]: nothing when less than 11 ms are left *)
+Definition redis_set_cmd (now expire : Z) (k : key) (nx : bool) : option redis_cmd :=
+  let ttl_ms := Z.quot (expire - now) MILLI in
+  if ttl_ms <=? 10 then None else Some (RSet k nx (Some ttl_ms)).
+
+(* the SERVER executing a SET at [now] whose value carries the header instants s, x and the message v: the key dies
+   px ms later; without PX it outlives every horizon [forever] one cares to name *)
+Definition redis_exec (r : list (key * ct_rentry)) (now s x : Z) (v : msg) (c : redis_cmd) (forever : Z)
+  : list (key * ct_rentry) :=
+  match c with
+  | RGet _ => r
+  | RSet k nx px =>
+    let dead := match px with Some p => now + p * MILLI | None => now + forever end in
+    let e := mkREntry s x v dead in
+    match ct_rfind k r with
+    | Some old => if nx && (now <? re_dead old) then r else ct_rput k e r
+    | None => ct_rput k e r
+    end
+  end.
+
+(* the command cacheCtl.Store makes the redis tier send (None: Store returned early, or too little lifetime left) *)
+Definition ct_store_cmd (mx : Z) (t eps : Z) (k : key) (resp : option msg) (packok : bool) : option redis_cmd :=
+  match resp with
+  | None => None
+  | Some m =>
+    if h_tc (m_hdr m) then None
+    else if negb packok then None
+    else redis_set_cmd (t + eps) (t + msg_lifetime mx m) k (negative m)
+  end.
+
+(* redis-only lookup on a bare redis map (what ctc_get false does), for the statements about commands *)
+Definition redis_lookup (r : list (key * ct_rentry)) (t : Z) (k : key) : option ct_rentry :=
+  match ct_rfind k r with
+  | Some e => if t <? re_dead e then Some e else None
+  | None => None
+  end.
